@@ -1017,7 +1017,13 @@ class TorchBackendProvider(BackendProvider):
 
         param_names = list(self._collect_params(ir))
         fn_source = f"def _expr({', '.join(param_names)}): return {source}"
-        ns = {}
+
+        def _kg_div(a, b):
+            # same rule as the interpreter's a%b: an atom divided by a zero atom is :undefined
+            from ..dyads import eval_dyad_divide
+            return eval_dyad_divide(a, b, self)
+
+        ns = {'_kg_div': _kg_div}
         try:
             exec(fn_source, ns)
         except Exception:
@@ -1040,7 +1046,9 @@ class TorchBackendProvider(BackendProvider):
             r = self._ir_to_source(right)
             if l is None or r is None:
                 return None
-            py_op = {'+': '+', '-': '-', '*': '*', '%': '/', '^': '**'}.get(op)
+            if op == '%':
+                return f'_kg_div({l},{r})'
+            py_op = {'+': '+', '-': '-', '*': '*', '^': '**'}.get(op)
             if py_op is None:
                 return None
             return f'({l}{py_op}{r})'
